@@ -307,9 +307,9 @@ func Main(id, tier, replayFile string) int {
 			seed = v
 		}
 	}
-	budget := 150 * time.Second
+	budget := 300 * time.Second
 	if tier == "thorough" {
-		budget = 20 * time.Minute
+		budget = 45 * time.Minute
 	}
 	if s := os.Getenv("VERIF_BUDGET_S"); s != "" {
 		if v, err := strconv.Atoi(s); err == nil {
